@@ -32,7 +32,7 @@ Emits(rr) ==
                          /\ EmitCase("strict.singleton", P, [x |-> 3, a |-> rr[1], b |-> rr[2]])
                          /\ EmitCase("hyper.discrete", P, [w |-> rr[1]]) /\ EmitCase("lax.identity", P, [w |-> rr[1]])
                          /\ EmitCase("lax.twist", P, [a |-> rr[1], b |-> rr[2]]) /\ EmitCase("lax.singleton", P, [x |-> 3, a |-> rr[1], b |-> rr[2]])
-                         /\ (rr[2] = <<>> => EmitCase("hyper.empty", P, [u |-> 0]) /\ EmitCase("lax.empty", P, [u |-> 0]) /\ EmitCase("strict.unit", P, [u |-> 0]))
+                         /\ (rr[2] = <<>> => EmitCase("hyper.empty", P, [u |-> 0]) /\ EmitCase("lax.empty", P, [u |-> 0]) /\ EmitCase("strict.unit", P, [u |-> 0]) /\ EmitCase("lax.unit", P, [u |-> 0]))
 Load == /\ stage >= 1 /\ stage <= Depth /\ kind' = kind
         /\ \E d \in Dom : r' = Append(r, d) /\ stage' = stage + 1 /\ (stage = Depth => Emits(r'))
 Next == Start \/ Load
